@@ -19,7 +19,8 @@ EXPLANATION = (
     'return, every normal return is edge-dominated by a true comparison flag that flows from check_output, and the failed-flag '
     'branch raises the got/want error; R3 detail stripping is edge-dominated by IGNORE_EXCEPTION_DETAIL and a failed first '
     'comparison and applied to both sides; R4 after an accepted exception the loop continues without recording a failure; '
-    'R5 shape facts of the traceback regex. Which message texts match is not decided.')
+    'R5 shape facts of the traceback regex. Which message texts match is not decided.'
+    ' R1b inside the exec handler the exception checker is consulted exactly when the part has a want (no further flag) and is handed the LAST item of traceback.format_exception_only. R5 also: the stack group of the traceback regex is lazy. R6 also: a first-dot cut is reported. R7 = C05.R11 (the run state is forwarded to every comparison).')
 DECIDES = ['ESCAPE(exec handler)', 'ESCAPE/GUARD-DOM(check_exception)', 'GUARD-DOM(_strip_exception_details)', 'MUST-PASS continuation', 'REGEX-FACT(_EXCEPTION_RE)']
 NOT_DECIDED = ['which texts the traceback regex accepts beyond its shape', 'message comparison results']
 
